@@ -149,6 +149,18 @@ def uniq_laws(seq, out, hit, unique_in_order):
     again = unique_in_order(out)
     if len(again) != len(out) or any(x is not y for x, y in zip(again, out)):
         bad.append('uniqueInOrder_idem')
+    # uniqueInOrder_append: U(l ++ m) = U(l) ++ [y in U(m) not hit by an element of l]; uniqueInOrder_append_self: U(l ++ l) = U(l)
+    k = len(seq) // 2
+    l, m = list(seq[:k]), list(seq[k:])
+    ul, um = unique_in_order(l), unique_in_order(m)
+    want = list(ul) + [y for y in um if not any(hit(x, y) for x in l)]
+    if len(want) != len(out) or any(x is not y for x, y in zip(want, out)):
+        bad.append('uniqueInOrder_append')
+    twice = unique_in_order(list(seq) + list(seq))
+    if len(twice) != len(out) or any(x is not y for x, y in zip(twice, out)):
+        bad.append('uniqueInOrder_append_self')
+    if len(out) > len(seq):
+        bad.append('uniqueInOrder_length_le')
     return bad
 
 
